@@ -6,7 +6,7 @@ named checks run against it; /repo restored."""
 import json, os, shutil, subprocess, sys
 name, prop, outdir = sys.argv[1:4]
 checks = sys.argv[4:] or [prop]
-env = dict(os.environ, GOFLAGS="-mod=mod", GOPROXY="off", GOSUMDB="off", GOTOOLCHAIN="local")
+env = dict(os.environ, GOFLAGS="-mod=mod", GOPROXY="off", GOSUMDB="off", GOTOOLCHAIN="local", PQL_SRC="/repo")
 def sh(cmd, **kw): return subprocess.run(cmd, shell=True, capture_output=True, text=True, env=env, **kw)
 assert sh("git -C /repo status --porcelain").stdout.strip() == "", "/repo not clean"
 patch = os.path.join(outdir, "patch.diff")
